@@ -24,7 +24,7 @@ def nontrivial(ops, tags):
 
 def gen(rng, tier):
     cases = [("sockops", "g%d" % i, ops) for i, ops in enumerate(sockgen.grid_cases(True))]
-    n = 60 if tier == "quick" else 1500
+    n = 60 if tier == "quick" else 8000
     for k in range(n):
         ops = sockgen.c01_case(rng) if rng.random() < 0.7 else sockgen.udp_case(rng)
         cases.append(("sockops", "r%d" % k, ops))
